@@ -715,6 +715,31 @@ class Backend(ABC):
         Raises:
             NotImplementedError: If the conversion for the given correlation rule type is not implemented.
         """
+        try:
+            return self._convert_correlation_rule(rule, output_format, method, callback)
+        except SigmaError as e:
+            if self.collect_errors:
+                self.errors.append((rule, e))
+                return []
+            raise
+        except NotImplementedError as e:
+            if self.collect_errors:  # feature not supported by backend: collect as Sigma error
+                self.errors.append(
+                    (rule, SigmaFeatureNotSupportedByBackendError(str(e), source=rule.source))
+                )
+                return []
+            raise
+
+    def _convert_correlation_rule(
+        self,
+        rule: SigmaCorrelationRule,
+        output_format: str | None = None,
+        method: str | None = None,
+        callback: (
+            Callable[[SigmaRule | SigmaCorrelationRule, str | None, int, Any, Any], Any] | None
+        ) = None,
+    ) -> list[Any]:
+        """Conversion of a correlation rule; errors are handled by convert_correlation_rule."""
         if self.correlation_methods is None:
             raise NotImplementedError("Backend does not support correlation rules.")
         method = method or self.default_correlation_method
